@@ -76,6 +76,50 @@ def casei_writers_rule(ck, ix):
                  "a path stores a spelling in the table without entering it into the case-insensitive index (e.g. when the key already exists because it was registered lazily as a prefixed unit): prefixes and case-insensitive lookups then miss a defined unit",
                  witness(cfg, (p1 or []) + (p2 or [])[1:]))
 
+
+def ordered_candidates_rule(ck, ix):
+    """Name resolution is deterministic: the candidate readings are produced in an order that does not depend on the
+    hash seed.  The registry keeps some spellings in sets (`_units_casei[...]`); wherever a function on the lookup path
+    iterates over such a set the iteration is over `sorted(...)`."""
+    init = ix.func(PR, "GenericPlainRegistry.__init__")
+    set_tables = set()
+    for a in walk_local(init.node):
+        if isinstance(a, (ast.Assign, ast.AnnAssign)):
+            tgt = a.targets[0] if isinstance(a, ast.Assign) else a.target
+            v = a.value
+            if v is not None and isinstance(tgt, ast.Attribute) and norm(tgt.value) == "self" and norm(v).replace(" ", "") in ("defaultdict(set)", "collections.defaultdict(set)"):
+                set_tables.add(tgt.attr)
+    ck.floor("G-DET", len(set_tables), 1, "set-valued spelling tables of the registry")
+    n = 0
+    for q in ("GenericPlainRegistry._yield_unit_triplets", "GenericPlainRegistry.parse_unit_name", "GenericPlainRegistry.get_name", "GenericPlainRegistry.get_symbol", "GenericPlainRegistry._dedup_candidates"):
+        f = ix.func(PR, q)
+        dfs = defs_of(f)
+        for x in ast.walk(f.node):
+            it = x.iter if isinstance(x, (ast.For, ast.comprehension)) else None
+            if it is None:
+                continue
+            def classify(e, depth=3):
+                """(mentions a set-valued table, is ordered) for an iterable expression; a local name is followed to all its definitions"""
+                inner, ordered = e, False
+                while isinstance(inner, ast.Call) and isinstance(inner.func, ast.Name) and inner.func.id in ("sorted", "list", "tuple", "reversed") and inner.args:
+                    ordered = ordered or inner.func.id == "sorted"
+                    inner = inner.args[0]
+                if isinstance(inner, ast.Name) and inner.id in dfs.defs and inner.id not in dfs.params and depth > 0:
+                    rs = [classify(v, depth - 1) for (v, k, st) in dfs.defs[inner.id] if v is not None and k == "assign"]
+                    hits = [h for h, _ in rs if h]
+                    return (hits[0] if hits else None), ordered or all(o for h, o in rs if h)
+                text = norm(inner)
+                hit_ = [t for t in set_tables if f"self.{t}" in text]
+                return (hit_[0] if hit_ else None), ordered
+            h0, ordered = classify(it)
+            hit = [h0] if h0 else []
+            if not hit:
+                continue
+            n += 1
+            ck.check(ordered, "G-DET", f"{q.split('.')[1]}|iteration-over-spelling-set-is-ordered|{hit[0]}", f.loc(x if isinstance(x, ast.For) else it), "candidates taken from the set in sorted order",
+                     f"`for ... in {norm(it)}` iterates over a set of spellings: the order of the candidate readings, and with it the reading chosen when a case-insensitive spelling is ambiguous (Ms: megasecond / megasiemens), depends on PYTHONHASHSEED")
+    ck.floor("G-DET", n, 1, "iterations over set-valued spelling tables on the lookup path")
+
 def run(ck, ix, tier):
     # ------------------------------------------------------------ get_name
     fi = ix.func(PR, "GenericPlainRegistry.get_name")
@@ -264,4 +308,6 @@ def run(ck, ix, tier):
     src = norm(f.node)
     ck.check("item.endswith('__')" in src and "len(item.lstrip('_')) == 0" in src and "item.startswith('_') and (not item.lstrip('_')[0].isdigit())" in src and "raise AttributeError" in src, "G-PROV", "getattr_maybe_raise|private-name-rule", f.loc(),
              "dunder, all-underscore and _name (unless _<digit>) raise AttributeError", "the private-name rule of getattr_maybe_raise changed")
+    ck.rule("G-DET", "an iteration whose order reaches the result runs over an ordered collection")
+    ordered_candidates_rule(ck, ix)
     return EXPLANATION
